@@ -476,13 +476,16 @@ def cache_offset(ctx, f, cfg):
                         at |= sl.of_operand(o)
                     const_only = not any(x.startswith(("call:", "param:", "field:", "op:")) for x in at)
                     stores.append((p, bi, const_only))
-    sr = f.one("DefaultMetricSearcher::search_offset_and_read")
+    sr = f.raw(f.one("DefaultMetricSearcher::search_offset_and_read"))      # read as written: the question is what THIS loop hands to the per-file call
     per_file_invariant = None
     if sr is not None:
         sl = Slicer(f, sr)
-        for bb, t in sr.calls():
-            if callee_def(t).endswith("find_offset_to_start") and sr.in_loop(bb):
-                at = sl.of_operand(t["args"][-1])
+        for bb in call_or_inlined(sr, "find_offset_to_start"):
+            if sr.in_loop(bb):
+                args_ = site_args(sr, bb)
+                if not args_:
+                    continue
+                at = sl.of_operand(args_[-1])
                 # does the offset argument depend on the loop's own iteration (index / file) ?
                 per_file_invariant = not any(x.startswith("call:") and x.endswith(("Iterator::next", "::next")) for x in at) and "op:Eq" not in at
     nonconst = [(p, b) for p, b, c in stores if not c]
